@@ -12,6 +12,9 @@ mod p04;
 mod p05;
 mod p06;
 mod p07;
+mod p08;
+mod zlib;
+mod zmodel;
 mod p17;
 mod p18;
 mod p19;
@@ -93,6 +96,7 @@ fn main() {
         "C05" => p05::run(&mut c),
         "C06" => p06::run(&mut c),
         "C07" => p07::run(&mut c),
+        "C08" => p08::run(&mut c),
         "C17" => p17::run(&mut c),
         "C18" => p18::run(&mut c),
         "C19" => p19::run(&mut c),
